@@ -130,7 +130,9 @@ func check(c Case, r *kit.R) {
 		r.NonTrivial()
 	}
 	fail := func(key, format string, args ...any) {
-		if privExplicit {
+		// Only the symptoms of the (repaired, see KNOWN_FINDINGS.txt) explicit+private decoding
+		// defect are attributed to it: Unmarshal failing, leaving bytes, or skipping the field.
+		if privExplicit && (key == "C18:unmarshal-error" || key == "C18:rest" || key == "C18:value-mismatch") {
 			key = keyPrivExplicit
 			format = "(type has a field tagged explicit+private: Marshal emits a PRIVATE explicit wrapper, Unmarshal only looks for CONTEXT-SPECIFIC or APPLICATION) " + format
 		}
@@ -182,7 +184,7 @@ func check(c Case, r *kit.R) {
 				continue
 			}
 		}
-		if !bytes.Equal(enc, enc2) && rawExplicit && !privExplicit {
+		if !bytes.Equal(enc, enc2) && rawExplicit {
 			r.Class("RawContent-struct-under-explicit-tag")
 			if r.Known(keyRawExplicit) {
 				continue
@@ -444,8 +446,8 @@ func (g *gen) genOID() []int {
 }
 
 const (
-	utcLo = -631152000 + 86400  // 1950-01-02
-	utcHi = 2524608000 - 86400  // 2049-12-31
+	utcLo = -631152000 + 86400 // 1950-01-02
+	utcHi = 2524608000 - 86400 // 2049-12-31
 	genLo = -62135596800 + 86400
 	genHi = 253370764800 - 86400 // 9998-12-30
 )
